@@ -334,3 +334,16 @@ package shard
 //@ func (*Shard).fetchObjectData
 //@   property C43
 //@   ensures [metabase_error_fails_the_read_only_in_a_mode_with_a_metabase] res1 != nil && resultOf(res1, "(*metabase.DB).Exists") ==> !modeHasNoMetabase()
+
+// ---- C43 (the blob storage follows the mode): when the shard switches, the blob storage is
+// re-opened read-only exactly for the modes that prohibit modifications (READ_ONLY,
+// DEGRADED_READ_ONLY) - DEGRADED_READ_WRITE is a writable mode.
+//@ callrule c43_storage_mode_bit in (*Shard).setModeStorage
+//@   property C43
+//@   callee (mode.Mode).ReadOnly
+//@   pureeffect
+//@   defines result == (self & mode.ReadOnly != 0)
+//@ callrule c43_blob_storage_opened_as_the_mode_says in (*Shard).setModeStorage
+//@   property C43
+//@   callee (common.Storage).Open
+//@   requires [read_only_exactly_for_the_read_only_modes] a0 == (m & mode.ReadOnly != 0)
